@@ -205,8 +205,10 @@ def run(prop: str, tier: str, seed: int, scratch: Path, replay=None, model_ok=Tr
     else:
         corr_failures.append({'error': 'model does not build'})
 
-    if prop == 'C12' and not replay:
-        spec_violations += _keepalive_probe()
+    if not replay:
+        # keep-alive and second-event-loop probes (runtime behaviour outside the loop-handle model)
+        probe = _keepalive_probe()
+        spec_violations += [v for v in probe if (prop == 'C12') != ('Sequential' in v['what'])]
 
     samples = []
     for r in results:
